@@ -512,3 +512,78 @@ func init() {
 		}
 	}
 }
+
+// stream clilog (C11, command line part): what the tool prints with -debug N must not contain the password,
+// neither as text nor inside a dump of frame bytes
+func init() {
+	streams["clilog"] = func(g *gen, cw *caseWriter, n int, thorough bool) {
+		rundir := filepath.Dir(os.Getenv("VERIF_E3DC"))
+		levels := []int{0, 1, 4, 5, 6, 7, 42, 98}
+		if thorough {
+			levels = nil
+			for l := 0; l <= 98; l++ {
+				levels = append(levels, l)
+			}
+		}
+		type job struct {
+			level    int
+			scenario string
+			pw       string
+			impl     string
+			prop     string
+		}
+		var jobs []*job
+		for _, l := range levels {
+			for _, sc := range []string{"ok", "refused", "garbled"} {
+				jobs = append(jobs, &job{level: l, scenario: sc, pw: g.secret()})
+			}
+		}
+		var wg sync.WaitGroup
+		sem := make(chan struct{}, 12)
+		for i, j := range jobs {
+			wg.Add(1)
+			sem <- struct{}{}
+			go func(i int, j *job) {
+				defer wg.Done()
+				defer func() { <-sem }()
+				c := &cliCase{label: "clilog", flags: "ok", user: "loguser", pw: j.pw, key: "logkey", needsDev: true}
+				c.auth = frameReply([]rscp.Message{{Tag: rscp.RSCP_AUTHENTICATION, DataType: rscp.UChar8, Value: uint8(10)}})
+				switch j.scenario {
+				case "refused":
+					c.auth = frameReply([]rscp.Message{{Tag: rscp.RSCP_AUTHENTICATION, DataType: rscp.Int32, Value: int32(0)}})
+				case "garbled":
+					c.auth = replySpec{behaviour{kind: "garbled", k: 0}, "P invalidMagic 0"}
+				}
+				c.users = []replySpec{frameReply([]rscp.Message{{Tag: rscp.INFO_SERIAL_NUMBER, DataType: rscp.CString, Value: "serial"}})}
+				c.args = []string{"-host", "127.0.0.1", "-port", "{PORT}", "-user", "loguser", "-password", j.pw, "-key", "logkey", "-debug", strconv.Itoa(j.level),
+					`["INFO_REQ_SERIAL_NUMBER"]`}
+				dir := filepath.Join(rundir, fmt.Sprintf("clilog-%d", i))
+				os.MkdirAll(dir, 0o755)
+				defer os.RemoveAll(dir)
+				dev, err := startDevice(c.key, c.auth.beh, []behaviour{c.users[0].beh})
+				if err != nil {
+					j.impl, j.prop = "no-device", ""
+					return
+				}
+				defer dev.stop()
+				args := append([]string{}, c.args...)
+				for k, a := range args {
+					args[k] = strings.ReplaceAll(a, "{PORT}", strconv.Itoa(dev.port()))
+				}
+				r := runCLI(dir, args, "", nil)
+				j.prop = "pass"
+				if how := containsSecret(r.stderr+r.stdout, j.pw); how != "" {
+					j.prop = fmt.Sprintf("FAIL C11 with -debug %d the tool prints the password %s (%s authentication)", j.level, how, j.scenario)
+				}
+				if strings.Contains(r.stderr, "panic:") {
+					j.prop = "FAIL C11 the tool panics"
+				}
+			}(i, j)
+		}
+		wg.Wait()
+		for _, j := range jobs {
+			// judged by the Go-side oracle alone (the scan of what the process printed)
+			cw.add("skip", "skip", fmt.Sprintf("N clilog level=%d %s", j.level, j.scenario), j.prop)
+		}
+	}
+}
